@@ -7,8 +7,20 @@
   and the real debugger prompt, are observed in the tie (stream C03), not proved.  Serialisers
   (`Node.html`, `docHTML`) are total Lean functions over every tree, including `None` attribute values and
   odd tag names; that the Python serialisers are total on the same trees is the tie's part.
+
+  Second part (after the review of the statements): the same for ALL the classes the property names — the four
+  formatters (`Fmt.step`/`Fmt.feed`, every `Cfg`) and the indexed parser (`G3.idxStep`: the inherited handler, then
+  `_indexTag` with its KeyError kept) —, the general wrapped pass (after the wrapper's start tag ANY tokens without
+  its end tag), "never raises at all" for input without the wrapper's end tag (and, citing C02a, the document it
+  builds), the object across calls (`_reset` restores the initial state from every state a pass can leave), when
+  `getHTML` is defined, and a COST model of the handlers with the bound that is true of it (O(n·depth), not O(n)).
 -/
 import AHP.Lemmas.BuilderTop
+import AHP.Lemmas.TotalCost
+import AHP.Lemmas.TotalFormat
+import AHP.Lemmas.TotalIndex
+import AHP.Props.C02
+import AHP.Props.C07
 namespace AHP.C03
 open AHP AHP.Spec
 
@@ -223,5 +235,403 @@ theorem feed_never_other_exception (toks : List Token) :
 /-! #### Non-vacuity -/
 example : NoWrapperEnd [.end_ "a".toList, .data "x".toList, .start "b<".toList [("/div".toList, none)]] := by
   intro t ht; simp at ht; rcases ht with h | h | h <;> subst h <;> decide
+
+
+/-! ## Second part: every class, the general wrapped pass, the object across calls, `getHTML`, cost -/
+
+/-! #### C03a is not an artefact of the totalised `handleEnd`
+
+`stepT` answers `.ok` for every end tag because `handle_endtag` wraps its body in `try: … except: pass`.  With the
+IndexError of `inTag[-1]` / `inTag.pop()` on an empty list kept as a failure value (`handleEndE`, `popToE`), the
+handler still never fails: the `foundIt` scan guarantees the closing loop stops before the list is empty.  The bare
+`except` is dead code. -/
+theorem handleEnd_never_index_error (s : TState) (n : Str) : handleEndE s n = some (handleEnd s n) :=
+  handleEndE_eq s n
+
+example : handleEndE ⟨[⟨"b".toList, AttrState.empty, []⟩, ⟨"a".toList, AttrState.empty, []⟩], none⟩ "a".toList
+    = some ⟨[], some (.elem "a".toList AttrState.empty false [.elem "b".toList AttrState.empty false []])⟩ := by
+  rfl
+
+/-! #### C03b generalised: after the wrapper's start tag, ANY tokens without its end tag -/
+
+/-- **C03b (general).**  Outer tokens (what `addStartTag` may leave in front: blank text, a declaration), the
+    wrapper's start tag, then ANY token sequence that contains no end tag of the wrapper — not only `ts ++ [end W]`:
+    on hostile text the tokenizer may swallow the closing tag, or produce other tokens after it —, then outer tokens
+    (the closing `end W` is one): the plain parser raises nothing. -/
+theorem after_wrapper_start_never_fails (pre ts post : List Token) (a : List Attr)
+    (hpre : ∀ t ∈ pre, isOuter t = true) (hw : NoWrapperEnd ts) (hpost : ∀ t ∈ post, isOuter t = true) :
+    ∃ s', runT TState.init (pre ++ .start wrapperName a :: (ts ++ post)) = .ok s' :=
+  runT_wrapped_general wrapperName wrapper_lower wrapper_not_void pre ts post a hpre hw hpost
+
+/-- the state form: once the outermost open element is the wrapper, every token except its end tag is accepted
+    and leaves it the outermost open element -/
+theorem inside_wrapper_never_fails (s : TState) (hb : Bottom wrapperName s) (ts : List Token) (hw : NoWrapperEnd ts) :
+    ∃ s', runT s ts = .ok s' ∧ Bottom wrapperName s' :=
+  runT_bottom ts hb hw
+
+/-- the second pass exactly as `feed` builds it -/
+theorem second_pass_never_fails (toks : List Token) (hw : NoWrapperEnd toks) :
+    ∃ s', runT TState.init (wrapToks toks) = .ok s' :=
+  runT_wrapToks_ok toks hw
+
+/-- **C03 (plain parser, strengthened): never raises at all.**  For every token sequence without an end tag of the
+    wrapper, `feed` ends in a document — first pass, or the single retry. -/
+theorem feed_never_raises (toks : List Token) (hw : NoWrapperEnd toks) : ∃ d b, feedTokens toks = .doc d b := by
+  rcases feed_never_other_exception toks with h | h
+  · exact h
+  · exfalso
+    unfold feedTokens at h
+    have hrun : ∀ l, run BState.init l = (runT TState.init l).map (fun tr => ⟨tr, l.foldl stepD none⟩) :=
+      fun l => run_eq l BState.init
+    rcases run_ok_or_multipleRoot toks TState.init with ⟨s', h1⟩ | h1
+    · rw [hrun, h1] at h; simp [Outcome.map, FeedResult.ofPass] at h
+    · rw [hrun, h1] at h
+      simp only [Outcome.map] at h
+      obtain ⟨s2, h2⟩ := second_pass_never_fails toks hw
+      rw [hrun, h2] at h; simp [Outcome.map, FeedResult.ofPass] at h
+
+theorem noWrapperEnd_of_noWrapper (toks : List Token) (h : C02.NoWrapper toks) : NoWrapperEnd toks := by
+  intro t ht e
+  have := h t ht
+  rw [e] at this
+  simp [mentionsWrapper] at this
+
+/-- … and which document: C02a (`C02.feed_eq_spec`) composed — inside the property's domain (the reserved name not
+    mentioned) the result is the document of the stack-free specification. -/
+theorem feed_is_spec_doc (toks : List Token) (hw : C02.NoWrapper toks) :
+    feedTokens toks = .doc (Spec.build toks).1 (Spec.build toks).2 :=
+  C02.feed_eq_spec toks hw
+
+/-! #### the object across calls -/
+
+/-- **`_reset` restores the initial state from EVERY state** a pass can leave — completed, raised half way,
+    elements still open: its three assignments cover the whole model state. -/
+theorem reset_restores_init (s : BState) : s.reset = BState.init := rfl
+
+/-- `feed` on a USED object (any state: a second `feed` continues the document; a chunk fed after an exception):
+    a document state or MultipleRootNodeException, nothing else -/
+theorem feedS_never_other_exception (s : BState) (toks : List Token) :
+    (feedS s toks).2 = none ∨ (feedS s toks).2 = some .multipleRoot := by
+  unfold feedS
+  rcases runS_cases s toks with ⟨s', _, h⟩ | ⟨e, he, h⟩
+  · rw [h]; exact Or.inl rfl
+  · rcases run_err_plain s toks with h0 | h0
+    · rw [h0] at he; cases he
+    · rw [h0] at he
+      have : e = .multipleRoot := by cases he; rfl
+      subst this
+      rw [G3.pair_eta _ _ h]
+      simp only
+      rw [runS_err]
+      exact run_err_plain _ _
+
+/-- `parseStr` on an object in ANY state is `parseStr` on a fresh object -/
+theorem parseStrS_fresh (s : BState) (toks : List Token) : parseStrS s toks = feedS BState.init toks := rfl
+
+/-- **usable for the next parse.**  Whatever the object went through (`s0` arbitrary, then `parseStr` of any
+    tokens — ended normally, raised, elements left open), the next `parseStr` gives what a fresh parser gives. -/
+theorem parse_after_any_history (s0 : BState) (toks next : List Token) :
+    resultOf ((run BState.init next).err == some .multipleRoot) (parseStrS (parseStrS s0 toks).1 next)
+      = feedTokens next := by
+  rw [parseStrS_fresh]; exact feedS_init next
+
+/-- `<b>x</b>` -/
+def bx : List Token := [.start "b".toList [], .data "x".toList, .end_ "b".toList]
+
+/-- … in particular: any text, then `<b>x</b>`, gives the document of `<b>x</b>` -/
+theorem then_bx_parses (s0 : BState) (toks : List Token) :
+    resultOf false (parseStrS (parseStrS s0 toks).1 bx)
+      = .doc ⟨none, some (.elem "b".toList AttrState.empty false [.text "x".toList])⟩ false := by
+  rw [parseStrS_fresh]; rfl
+
+/-- the state a raising pass leaves is not the initial one (so `reset_restores_init` is not vacuous): after
+    `<a>` `x` `</a>` `<b>` the object holds the finished `a` as root, and the next `parseStr` still works -/
+example : runS BState.init [.start "a".toList [], .end_ "a".toList, .start "b".toList []]
+    = (⟨⟨[], some (.elem "a".toList AttrState.empty false [])⟩, none⟩, some .multipleRoot) := by rfl
+
+/-! #### when `getHTML` is defined -/
+
+/-- **`getHTML` is a total function to strings on every state with a root, and answers the documented ValueError
+    (`none`) exactly when there is none** — whatever the tree contains (`docHTML : Option Str → Node → Str`). -/
+theorem getHTML_defined_iff_root (s : BState) : s.doc.html.isSome = s.tree.hasRoot := by
+  simp [BState.doc, Doc.html, finish_root]
+
+/-- "either nothing was parsed or `getHTML` returns a string", and when: nothing was parsed exactly when every
+    token is an outer one (blank text, declarations, processing instructions, stray end tags) -/
+theorem nothing_parsed_iff (toks : List Token) (d : Doc) (b : Bool) (h : feedTokens toks = .doc d b) :
+    d.html = none ↔ ∀ t ∈ toks, isOuter t = true := by
+  have hrun : ∀ l, run BState.init l = (runT TState.init l).map (fun tr => ⟨tr, l.foldl stepD none⟩) :=
+    fun l => run_eq l BState.init
+  have hroot : ∀ (s : BState), s.doc.html = none ↔ s.tree.hasRoot = false := by
+    intro s
+    have := getHTML_defined_iff_root s
+    cases hh : s.doc.html <;> rw [hh] at this <;> simp at this <;> simp [this]
+  unfold feedTokens at h
+  rcases run_ok_or_multipleRoot toks TState.init with ⟨s', h1⟩ | h1
+  · rw [hrun, h1] at h
+    simp only [Outcome.map, FeedResult.ofPass, FeedResult.doc.injEq] at h
+    rw [← h.1, hroot]
+    exact runT_init_noRoot toks s' h1
+  · rw [hrun, h1] at h
+    simp only [Outcome.map] at h
+    rcases run_ok_or_multipleRoot (wrapToks toks) TState.init with ⟨s2, h2⟩ | h2
+    · rw [hrun, h2] at h
+      simp only [Outcome.map, FeedResult.ofPass, FeedResult.doc.injEq] at h
+      rw [← h.1, hroot]
+      constructor
+      · intro hr
+        have := (runT_init_noRoot (wrapToks toks) s2 h2).mp hr _ (start_mem_wrapToks toks)
+        simp [isOuter] at this
+      · intro hall
+        rw [runT_outer_empty toks TState.init rfl hall] at h1; cases h1
+    · rw [hrun, h2] at h; simp [Outcome.map, FeedResult.ofPass] at h
+
+example : (⟨none, some (.elem "a".toList AttrState.empty false [.text "<".toList])⟩ : Doc).html
+    = some "<a ><</a>".toList := by decide
+
+/-! #### cost: what "time proportional to the input length" is, and is not
+
+`invocations_linear` bounds the number of handler CALLS.  The calls are not constant time: `handle_endtag` scans the
+open-element stack (`for i in range(len(inTag))` from the outermost, then the closing loop from the innermost), and
+`appendText` is `self.text += text`.  `Lemmas/TotalCost.lean` defines the cost (`stepCost`: 1 per call + 1 per
+`tagName` comparison; `textCost`: characters copied by the concatenation) and proves the bounds that are true. -/
+
+/-- **C03d (cost).**  comparisons + calls of a pass ≤ |tokens| · (2·maxDepth + 1): linear for bounded nesting depth -/
+theorem cost_le_depth (s : TState) (ts : List Token) : runCost s ts ≤ ts.length * (2 * maxDepth s ts + 1) :=
+  runCost_le ts s
+
+/-- the depth is at most the number of tokens, so the cost is at most quadratic -/
+theorem cost_le_quadratic (s : TState) (ts : List Token) :
+    runCost s ts ≤ ts.length * (2 * (s.stack.length + ts.length) + 1) :=
+  runCost_le_quadratic s ts
+
+/-- cost of `feed`: the pass, and the retry when it is taken -/
+def feedCost (toks : List Token) : Nat :=
+  runCost TState.init toks + (match run BState.init toks with
+    | .multipleRoot => runCost TState.init (wrapToks toks)
+    | _ => 0)
+
+theorem feedCost_le (toks : List Token) :
+    feedCost toks ≤ (2 * toks.length + 2) *
+      (2 * max (maxDepth TState.init toks) (maxDepth TState.init (wrapToks toks)) + 1) := by
+  unfold feedCost
+  have h1 := runCost_le toks TState.init
+  have h2 := runCost_le (wrapToks toks) TState.init
+  rw [wrapToks_length] at h2
+  generalize maxDepth TState.init toks = d1 at *
+  generalize maxDepth TState.init (wrapToks toks) = d2 at *
+  have e1 : toks.length * (2 * d1 + 1) ≤ toks.length * (2 * max d1 d2 + 1) :=
+    Nat.mul_le_mul_left _ (by have := Nat.le_max_left d1 d2; omega)
+  have e2 : (toks.length + 2) * (2 * d2 + 1) ≤ (toks.length + 2) * (2 * max d1 d2 + 1) :=
+    Nat.mul_le_mul_left _ (by have := Nat.le_max_right d1 d2; omega)
+  have e3 : (2 * toks.length + 2) * (2 * max d1 d2 + 1)
+      = toks.length * (2 * max d1 d2 + 1) + (toks.length + 2) * (2 * max d1 d2 + 1) := by
+    rw [← Nat.add_mul]; congr 1; omega
+  rw [e3]
+  split <;> omega
+
+/-- **it is NOT linear**: `k` start tags followed by `k` end tags of a name that is not open cost exactly
+    `k² + 2k` — every stray end tag scans the whole stack -/
+theorem cost_deep_stray_closes (k : Nat) : runCost TState.init (opens k ++ strays k) = k * k + 2 * k :=
+  cost_opens_strays k
+
+theorem cost_is_not_linear (c : Nat) : ∃ toks : List Token, c * toks.length < runCost TState.init toks :=
+  cost_not_linear c
+
+/-- the concatenations `self.text += text` of a pass copy at most |tokens| · (total text) characters -/
+theorem text_cost_le (ts : List Token) : runTextCost TState.init ts ≤ ts.length * totalText ts := by
+  have := runTextCost_le ts 0 TState.init textBound_init
+  simpa using this
+
+/-- … and they are not linear either: `<a>` followed by `k` references copies at least `5·k²/2` characters -/
+theorem text_cost_is_quadratic (k : Nat) :
+    5 * (k * k) ≤ 2 * runTextCost TState.init (.start nameA [] :: refs k) :=
+  text_cost_quadratic k
+
+example : runCost TState.init (opens 3 ++ strays 3) = 15 := by decide
+example : maxDepth TState.init (opens 3 ++ strays 3) = 3 := by decide
+
+/-! #### the four formatters -/
+
+/-- **C03a for the formatters.**  Whatever the token and the configuration (pretty / mini / slim / slim-mini, any
+    indent), a handler of a formatter succeeds or raises MultipleRootNodeException — it never answers the other
+    error of the model (`noRoot`) and there is no further failure value. -/
+theorem formatter_step_ok_or_multipleRoot (cfg : Fmt.Cfg) (s : Fmt.St) (t : Fmt.Tok) :
+    (∃ s', Fmt.step cfg s t = .ok s') ∨ Fmt.step cfg s t = .error .multipleRoot :=
+  Fmt.step_ok_or_multipleRoot cfg s t
+
+theorem formatter_pass_ok_or_multipleRoot (cfg : Fmt.Cfg) (ts : List Fmt.Tok) (s : Fmt.St) :
+    (∃ s', Fmt.run cfg ts s = .ok s') ∨ Fmt.run cfg ts s = .error .multipleRoot :=
+  Fmt.run_ok_or_multipleRoot cfg ts s
+
+/-- `feed` of a formatter: a state or MultipleRootNodeException (raised by the retry), for every token sequence -/
+theorem formatter_feed_never_other_exception (cfg : Fmt.Cfg) (toks : List Fmt.Tok) :
+    (∃ s', Fmt.feed cfg toks = .ok s') ∨ Fmt.feed cfg toks = .error .multipleRoot := by
+  unfold Fmt.feed
+  rcases Fmt.run_ok_or_multipleRoot cfg toks {} with ⟨s', h⟩ | h
+  · rw [h]; exact Or.inl ⟨s', rfl⟩
+  · rw [h]; exact Fmt.run_ok_or_multipleRoot cfg _ {}
+
+/-- no end tag of the wrapper inside the input (formatter tokens) -/
+def FNoWrapperEnd (ts : List Fmt.Tok) : Prop := ∀ t ∈ ts, t ≠ Fmt.Tok.end_ Fmt.wrapper
+
+/-- **C03b for the formatters (general).**  Outer tokens, the wrapper's start tag, ANY tokens without its end
+    tag, outer tokens: no formatter class raises. -/
+theorem formatter_wrapped_never_fails (cfg : Fmt.Cfg) (pre ts post : List Fmt.Tok) (a : List (Str × Option Str))
+    (hpre : ∀ t ∈ pre, Fmt.isOuterTok t = true) (hw : FNoWrapperEnd ts)
+    (hpost : ∀ t ∈ post, Fmt.isOuterTok t = true) :
+    ∃ s', Fmt.run cfg (pre ++ .start Fmt.wrapper a :: (ts ++ post)) {} = .ok s' :=
+  Fmt.run_wrapped_general cfg pre ts post a hpre hw hpost
+
+/-- **the formatters never raise at all** on input without the wrapper's end tag -/
+theorem formatter_feed_never_raises (cfg : Fmt.Cfg) (toks : List Fmt.Tok) (hw : FNoWrapperEnd toks) :
+    ∃ s', Fmt.feed cfg toks = .ok s' := by
+  rcases formatter_feed_never_other_exception cfg toks with h | h
+  · exact h
+  · exfalso
+    unfold Fmt.feed at h
+    rcases Fmt.run_ok_or_multipleRoot cfg toks {} with ⟨s', h1⟩ | h1
+    · rw [h1] at h; cases h
+    · rw [h1] at h
+      simp only at h
+      obtain ⟨pre, r, htoks, hpre, hshape⟩ := Fmt.wrapToks_shape toks
+      have hwr : FNoWrapperEnd r := fun t ht => hw t (by rw [htoks]; exact List.mem_append_right _ ht)
+      obtain ⟨s2, h2⟩ := Fmt.run_wrapped_general cfg pre r [.end_ Fmt.wrapper] [] hpre hwr (by simp [Fmt.isOuterTok])
+      rw [hshape, h2] at h; cases h
+
+/-- every class of Formatter.py, every constructor argument -/
+theorem formatter_classes_never_raise (c : Fmt.Class) (ind : Fmt.IndentArg) (ssc : Bool) (toks : List Fmt.Tok)
+    (hw : FNoWrapperEnd toks) : ∃ s', Fmt.feed (Fmt.mkCfg c ind ssc) toks = .ok s' :=
+  formatter_feed_never_raises _ toks hw
+
+/-- the formatter's `_reset` restores the initial state from every state -/
+theorem formatter_reset_restores_init (s : Fmt.St) : s.reset = {} := rfl
+
+theorem formatter_parse_after_any_history (cfg : Fmt.Cfg) (s0 : Fmt.St) (toks next : List Fmt.Tok) :
+    Fmt.asExcept (Fmt.parseStrS cfg (Fmt.parseStrS cfg s0 toks).1 next) = Fmt.feed cfg next := by
+  show Fmt.asExcept (Fmt.feedS cfg (Fmt.St.reset _) next) = _
+  rw [Fmt.St.reset_eq_init]; exact Fmt.feedS_init cfg next
+
+/-- **the formatter's `getHTML`** answers the documented ValueError exactly when nothing was parsed and is a string
+    otherwise -/
+theorem formatter_getHTML_defined_iff_root (s : Fmt.St) :
+    (Fmt.docHTML s.doctype s.root = .error .noRoot ↔ s.noRoot = true) ∧
+    (s.noRoot = false → ∃ str, Fmt.docHTML s.doctype s.root = .ok str) := by
+  constructor
+  · constructor
+    · intro h
+      cases hr : s.root with
+      | none => exact (Fmt.root_none_iff s).mp hr
+      | some r =>
+        rw [hr] at h
+        obtain ⟨str, hs⟩ := Fmt.docHTML_some s.doctype r
+        rw [hs] at h; cases h
+    · intro h
+      rw [(Fmt.root_none_iff s).mpr h]; rfl
+  · intro h
+    cases hr : s.root with
+    | none => rw [(Fmt.root_none_iff s).mp hr] at h; cases h
+    | some r => exact Fmt.docHTML_some s.doctype r
+
+/-! #### the indexed parser -/
+
+open G3 in
+/-- **indexing at creation never fails.**  In every reachable index configuration (all 16 flag combinations, any
+    attribute indexes, any history of configuration calls and parses) `_indexTag` meets no KeyError. -/
+theorem indexing_never_fails (a b c d : Bool) (ops : List C07.Cfg) (e : Elem) :
+    (ops.foldl C07.applyCfg (Idx.init a b c d)).indexTagE e
+      = some ((ops.foldl C07.applyCfg (Idx.init a b c d)).indexTag e) :=
+  Idx.indexTagE_eq (C07.reachable_good a b c d ops) e
+
+open G3 in
+/-- **C03 for the indexed parser, a pass.**  For every token sequence, every reading `view` of the new elements and
+    every well-formed index state: the pass ends `ok` exactly when the plain parser's does — with the same tree —,
+    else in MultipleRootNodeException; never in a KeyError. -/
+theorem indexed_parse_total (view : Nat → Str → List Attr → Elem) (i0 : Idx) (st : IState) (h : IdxOK i0 st)
+    (ts : List Token) :
+    (∃ st', idxRun view st ts = .ok st' ∧ runT st.tree ts = .ok st'.tree ∧ IdxOK i0 st') ∨
+    (idxRun view st ts = .error (.raised .multipleRoot) ∧ runT st.tree ts = .multipleRoot) := by
+  rcases idxRun_total view ts h with ⟨st', g1, _, g3, g4⟩ | ⟨g1, _, g3, _⟩
+  · exact Or.inl ⟨st', g1, g3, g4⟩
+  · exact Or.inr ⟨g1, g3⟩
+
+open G3 in
+/-- `parseStr` of the indexed parser in any reachable configuration and ANY tree state (whatever an earlier pass
+    left): a document or MultipleRootNodeException, and the index stays well formed — usable for the next parse -/
+theorem indexed_parseStr_total (view : Nat → Str → List Attr → Elem) (st : IState) (hg : Idx.Good st.idx)
+    (toks : List Token) :
+    ((idxParseStrS view st toks).2 = none ∨ (idxParseStrS view st toks).2 = some (.raised .multipleRoot)) ∧
+    Idx.Good (idxParseStrS view st toks).1.idx :=
+  idxFeedS_total view (idxOK_reset hg) toks
+
+open G3 in
+/-- … and it never raises at all on input without the wrapper's end tag; the tree is the plain parser's -/
+theorem indexed_parseStr_never_raises (view : Nat → Str → List Attr → Elem) (st : IState) (hg : Idx.Good st.idx)
+    (toks : List Token) (hw : NoWrapperEnd toks) :
+    (idxParseStrS view st toks).2 = none ∧
+    (runT TState.init toks = .ok (idxParseStrS view st toks).1.tree ∨
+      (runT TState.init toks = .multipleRoot ∧
+        runT TState.init (wrapToks toks) = .ok (idxParseStrS view st toks).1.tree)) :=
+  idxFeedS_never_raises view (idxOK_reset hg) toks hw
+
+open G3 in
+/-- the indexed `_reset` forgets whatever was indexed: the index after it depends on the configuration only -/
+theorem indexed_reset_restores_init (i : Idx) (es : List Elem) :
+    (es.foldl Idx.indexTag i.resetInternal).resetInternal = i.resetInternal.resetInternal :=
+  resetInternal_fold _ es
+
+/-! #### Non-vacuity (second part) -/
+
+example : FNoWrapperEnd [.end_ "a".toList, .data "x".toList, .start "b<".toList [("/div".toList, none)]] := by
+  intro t ht; simp at ht; rcases ht with h | h | h <;> subst h <;> simp [Fmt.wrapper] <;> decide
+
+/-- hostile second pass whose closing tag was swallowed and which goes on after a nested wrapper start -/
+example : ∃ s', runT TState.init ([.decl "doctype html".toList] ++ .start wrapperName [] ::
+    ([.end_ "p".toList, .start wrapperName [], .entity "amp".toList, .start "a".toList [], .end_ "b".toList] ++ [])) = .ok s' :=
+  after_wrapper_start_never_fails _ _ _ _ (by simp [isOuter])
+    (by intro t ht; simp at ht; rcases ht with h | h | h | h | h <;> subst h <;> simp <;> decide) (by simp)
+
+
+/-- `feed_never_raises` on a hostile sequence (stray close first, a start tag with a hostile name, text) -/
+example : ∃ d b, feedTokens [.end_ "a".toList, .start "b<".toList [("/div".toList, none)], .end_ "b<".toList,
+    .data "x".toList] = .doc d b :=
+  feed_never_raises _ (by intro t ht; simp at ht; rcases ht with h | h | h | h <;> subst h <;> decide)
+
+/-- nothing parsed: a declaration, blank text and a stray end tag leave no root, and `getHTML` is the ValueError -/
+example : feedTokens [.decl "DOCTYPE html".toList, .data " \n".toList, .end_ "p".toList]
+    = .doc ⟨some "DOCTYPE html".toList, none⟩ false := by rfl
+example : (⟨some "DOCTYPE html".toList, none⟩ : Doc).html = none := rfl
+
+/-- every formatter class on a multi-root hostile sequence -/
+example (c : Fmt.Class) (ind : Fmt.IndentArg) (ssc : Bool) :
+    ∃ s', Fmt.feed (Fmt.mkCfg c ind ssc)
+      [.data "x".toList, .start "a".toList [], .end_ "q".toList, .startend "a".toList [], .entity "amp".toList] = .ok s' :=
+  formatter_classes_never_raise c ind ssc _
+    (by intro t ht; simp at ht; rcases ht with h | h | h | h | h <;> subst h <;> simp <;> decide)
+
+example : Fmt.docHTML none (({} : Fmt.St).root) = .error .noRoot := rfl
+
+/-- a reading of the new element for the examples: uid = creation index, the valued attributes, no classes -/
+def sampleView : Nat → Str → List Attr → G3.Elem :=
+  fun k n a => ⟨k, n, a.filterMap (fun p => p.2.map (fun v => (p.1, v))), [], []⟩
+
+/-- a reachable configuration with an attribute index, in its initial object state -/
+def sampleIdx : G3.Idx := (G3.Idx.init true true true true).addIndexOn "title".toList
+
+example : G3.IdxOK sampleIdx.resetInternal (G3.IState.reset ⟨TState.init, sampleIdx, []⟩) :=
+  G3.idxOK_reset (G3.Idx.addIndexOn_good (G3.Idx.init_good true true true true) _)
+
+/-- the indexed parser on `<a title=t><b>` `</a>` `<c>`: MultipleRootNodeException in the first pass (as the
+    plain parser), a document after the retry — the attribute index was exercised (`title`) -/
+example : (G3.idxParseStrS sampleView ⟨TState.init, sampleIdx, []⟩
+    [.start "a".toList [("title".toList, some "t".toList)], .start "b".toList [], .end_ "a".toList,
+     .start "c".toList []]).2 = none :=
+  (indexed_parseStr_never_raises sampleView _ (G3.Idx.addIndexOn_good (G3.Idx.init_good true true true true) _) _
+    (by intro t ht; simp at ht; rcases ht with h | h | h | h <;> subst h <;> simp <;> decide)).1
+
+/-- the hypothesis `Good` is needed: with the two dicts of the attribute indexes out of step (a state no
+    sequence of calls reaches) `_indexTag` raises the KeyError -/
+example : G3.Idx.indexTagE { G3.Idx.init true true true true with otherFns := ["title".toList] }
+    ⟨0, "a".toList, [("title".toList, "t".toList)], [], []⟩ = none := by rfl
 
 end AHP.C03
